@@ -174,7 +174,11 @@ type Bounds struct {
 	// Opaque records values whose arithmetic may wrap in a narrow type (reported by rule R2).
 	Opaque map[ssa.Value]string
 	stable [][]ssa.Value
-	summ   map[*ssa.Function]map[int]int64 // predicate summaries, private to this analysis (no global state)
+	// NoForward switches off store-to-load forwarding (set by rules that prove something about a
+	// stored value under a hypothesis about the loads of the same field: forwarding would let the
+	// hypothesis about a later load flow back into the stored value - a circular proof).
+	NoForward bool
+	summ      map[*ssa.Function]map[int]int64 // predicate summaries, private to this analysis (no global state)
 	// Extra, when set, adds facts that hold by a checked class invariant or callee summary (the
 	// rule that sets it is responsible for checking them). It runs after the definitional facts
 	// and before branch conditions and refinement.
@@ -1419,6 +1423,9 @@ func (b *Bounds) stableFieldLoads() [][]ssa.Value {
 	// other writer of the field (and no re-evaluation of the stored value) in between, yields the
 	// stored value.
 	for _, blk := range b.Fn.Blocks {
+		if b.NoForward {
+			break
+		}
 		for _, in := range blk.Instrs {
 			st, ok := in.(*ssa.Store)
 			if !ok {
